@@ -2,7 +2,7 @@
    Statements only. *)
 From Coq Require Import List Arith Bool.
 Import ListNotations.
-From PySM Require Import Impl.Engine Proofs.EngineFrame Proofs.EngineProofs Proofs.EngineLog.
+From PySM Require Import Impl.Engine Proofs.EngineFrame Proofs.EngineProofs Proofs.EngineLog Proofs.WritesLocal.
 
 (* every executed transition is exactly this chain of group executions, each starting in the
    configuration where the previous one ended: validators, conditions (all hold), before,
@@ -60,6 +60,34 @@ Theorem C02_second_half_starts_from_target :
        do (c2, _a) <- call_group beh nested rm GAfter x0 (a_after t) c1; Ok c2 tt).
 Proof. exact activate_post_starts_from_target. Qed.
 Print Assumptions C02_second_half_starts_from_target.
+
+(* hence: when the enter(target) / after callbacks of the transition do not assign the state themselves
+   ([quiet], nothing assumed about any other callback - validators, guards, before, exit and on callbacks may
+   store whatever they like), every one of them is called with the target stored, and the transition ends with
+   the target stored (run-to-completion) *)
+Theorem C02_second_half_sees_target_whatever_was_stored :
+  forall beh rm t, quiet beh (second_half_cbs t) ->
+  forall x c, Rres (sees (depth c) (Some (a_tgt t))) (set_field c (Some (a_tgt t)))
+                   (activate_post beh flat_nested rm t x c).
+Proof. exact second_half_sees_target. Qed.
+Print Assumptions C02_second_half_sees_target_whatever_was_stored.
+
+Theorem C02_transition_ends_in_target_whatever_was_stored :
+  forall beh rm t, quiet beh (second_half_cbs t) ->
+  forall x c c' u, activate_post beh flat_nested rm t x c = Ok c' u ->
+    field c' = Some (a_tgt t) /\
+    exists l, log c' = l ++ log c /\ Forall (entry_sees (depth c) (Some (a_tgt t))) l.
+Proof. exact second_half_ends_in_target. Qed.
+Print Assumptions C02_transition_ends_in_target_whatever_was_stored.
+
+(* and the first half: when the validators, guards, before, exit(source) and on callbacks of the transition do
+   not assign the state themselves - whatever the callbacks of other transitions and states do - each of them is
+   called with the state stored when the half began (the source), which is still stored when `on` has ended *)
+Theorem C02_first_half_sees_source_whatever_others_do :
+  forall beh rm t, quiet beh (first_half_cbs t) ->
+  forall d f x c, Rres (sees d f) c (activate_pre beh flat_nested rm t x c).
+Proof. exact first_half_sees_source. Qed.
+Print Assumptions C02_first_half_sees_source_whatever_others_do.
 
 (* a rejected candidate runs its validators and conditions only - none of its actions *)
 Theorem C02_rejected_runs_no_actions :
@@ -169,3 +197,6 @@ Example C02_nonvacuous_write :
   let r := send wr_beh wr_rm 5 {| td_ev := Some 0; td_tag := 0 |} (init_cfg (Some 0)) in
   seen r = [(3, Some 0); (5, Some 0)] /\ final_field r = Some 0.
 Proof. vm_compute. split; reflexivity. Qed.
+Example C02_nonvacuous_write_quiet :
+  forall t, In t (rm_trans wr_rm) -> quiet wr_beh (second_half_cbs (atrans_of wr_rm t)).
+Proof. intros t [<-|[]] cb n [<-|[]]. reflexivity. Qed.
